@@ -1,31 +1,10 @@
 #!/bin/bash
-# For every seeded change: apply (to /repo, or to a base worktree if it conflicts with a fix: commit), run ALL claimed quick checks,
-# record which report a violation, revert. Writes seeded/<name>/meta.json:detected_by and seeded/MATRIX.md.
+# Runs every confirmed seeded change against ALL claimed quick checks (each on its own scratch copy of /repo, in
+# parallel; /repo itself is not touched) and rewrites seeded/*/meta.json:detected_by and seeded/MATRIX.md.
+# usage: tools/seed_matrix.sh [parallelism]
 cd /verif
-ids=$(python3 -c "import json; print(' '.join(c['property_id'] for c in json.load(open('MANIFEST.json'))['checks']))")
-echo "| seed | own property check | other checks that fire | rules that fire |" > seeded/MATRIX.md
-echo "|---|---|---|---|" >> seeded/MATRIX.md
-for d in seeded/C*-m*/; do
-  name=$(basename $d); prop=${name%%-*}
-  out=$(TRY_SEED_LINES=200 tools/try_seed.sh $d/patch.diff $ids 2>&1)
-  python3 - "$name" "$prop" <<PY "$out"
-import sys,json,re
-name,prop,out=sys.argv[1],sys.argv[2],sys.argv[3]
-cur=None; fired={}; rules={}
-for l in out.splitlines():
-    m=re.match(r'--- (C\d+) exit=(\d+)',l)
-    if m: cur=m.group(1); fired[cur]=int(m.group(2))!=0; rules[cur]=[]; continue
-    m=re.match(r'(VIOLATED|UNDECIDED) (R[\d.]+)\|',l)
-    if m and cur: rules[cur].append(m.group(2))
-    if l.startswith('ANALYSIS-ERROR') and cur: rules[cur].append('ANALYSIS-ERROR')
-own=fired.get(prop,False)
-others=[k for k,v in fired.items() if v and k!=prop]
-p='/verif/seeded/%s/meta.json'%name
-meta=json.load(open(p))
-meta['detected_by']={'own_property_check':own,'checks_that_fire':[k for k,v in fired.items() if v],'rules':{k:sorted(set(v)) for k,v in rules.items() if v},'on_base_worktree':'conflicts with a fix: commit' in out}
-json.dump(meta,open(p,'w'),indent=1)
-allr=sorted(set(r for v in rules.values() for r in v))
-open('/verif/seeded/MATRIX.md','a').write('| %s | %s | %s | %s |\n'%(name,'**caught**' if own else 'not caught',', '.join(others) or '-',', '.join(allr) or '-'))
-print(name, 'own=',own, 'others=',others)
-PY
-done
+./check.sh C20 quick >/dev/null 2>&1   # make sure bin/dblint is current
+ls -d seeded/C*-m*/ | xargs -P "${1:-12}" -n 1 tools/seed_one.sh > /tmp/dblint-matrix.rows
+{ echo "| seeded change | own property's check | rules of that check that fire | other checks that fire |"; echo "|---|---|---|---|"; sort -V /tmp/dblint-matrix.rows; } > seeded/MATRIX.md
+rm -f /tmp/dblint-matrix.rows
+grep -c 'caught\*\*' seeded/MATRIX.md | sed 's/^/caught by own check: /'; grep -c 'not caught' seeded/MATRIX.md | sed 's/^/not caught: /'
